@@ -11,3 +11,11 @@ from .client import *
 from .server import *
 
 from .._generated.net import *
+
+# The star-imports above also copy module attributes of the generated packages, which would shadow
+# the submodules of the same name. Bind the real submodules last.
+import sys as _sys
+
+packet = _sys.modules[__name__ + ".packet"]
+client = _sys.modules[__name__ + ".client"]
+server = _sys.modules[__name__ + ".server"]
